@@ -20,6 +20,7 @@ def check(repo, run, tier):
     g(pr.typed_lookups, repo, run, 'C05.R1')
     g(pr.removed_set_bases, repo, run, 'C05.R1')
     g(mt.counterpart_lookup, repo, run, 'C05.R1c')
+    g(pr.no_unpacked_list_paths, repo, run, 'C05.R1d')
     g(mr.key_loop_paths, repo, run, 'C05.R2')
     g.done()
 
